@@ -15,6 +15,7 @@
 package signed
 
 import (
+	"bytes"
 	"crypto"
 	"crypto/ecdsa"
 	"crypto/rand"
@@ -111,6 +112,9 @@ func Verify(signed *cryptopb.SignedMessage, key crypto.PublicKey,
 	if err != nil {
 		return nil, serrors.Wrap("extracting header", err)
 	}
+	if err := checkCanonicalHeaderAndBody(signed.HeaderAndBody); err != nil {
+		return nil, err
+	}
 	if l := associatedDataLen(associatedData...); l != hdr.AssociatedDataLength {
 		return nil, serrors.New("header specifies a different associated data length",
 			"expected", hdr.AssociatedDataLength, "actual", l)
@@ -134,6 +138,29 @@ func Verify(signed *cryptopb.SignedMessage, key crypto.PublicKey,
 		Header: *hdr,
 		Body:   body,
 	}, nil
+}
+
+// checkCanonicalHeaderAndBody rejects encodings of the header and body that Sign
+// never produces (repeated or reordered fields, non-minimal length prefixes).
+// The signature input is the raw header and body directly followed by the
+// associated data, and the only delimiter between the two is the associated
+// data length inside the header. With a lenient parse, leading bytes of the
+// associated data could be appended to the header and body and be interpreted
+// as fields that override the signed header, without invalidating the
+// signature.
+func checkCanonicalHeaderAndBody(raw []byte) error {
+	var hdrAndBody cryptopb.HeaderAndBody
+	if err := proto.Unmarshal(raw, &hdrAndBody); err != nil {
+		return err
+	}
+	canonical, err := proto.MarshalOptions{Deterministic: true}.Marshal(&hdrAndBody)
+	if err != nil {
+		return err
+	}
+	if !bytes.Equal(canonical, raw) {
+		return serrors.New("header and body are not in canonical encoding")
+	}
+	return nil
 }
 
 func computeSignatureInput(algo SignatureAlgorithm, hdrAndBody []byte,
